@@ -36,6 +36,7 @@ RULES = {
     "C05-E7": "the post-handler accounting tests only per-unit state that was re-established for this unit",
     "C05-E8": "each typed reader can return TRUE exactly for the token classes of its data type (no suffixed number where no suffix is allowed, no foreign class)",
     "C05-E9": "every path of SCPI_ErrorPushEx (any queue state, any code) marks the running command as failed: context->cmd_error = TRUE",
+    "C05-E12": "a decimal number with a suffix handed to a reader that takes no suffix (Bool, the integer and the floating readers) queues exactly -138 and the reader returns FALSE",
     "C05-E10": "-363 is raised only for input that does not fit: the overrun guard is exact (shared with C08-H8)",
     "C05-E11": "the parameter counter that decides whether a comma must be consumed is at least as wide as the element count of the array readers (it cannot wrap inside one unit)",
     "C05-E6": "SCPI_Parameter returns TRUE only for recognised program-data classes; all other paths invalidate the token and queue a -1xx error",
@@ -591,6 +592,55 @@ def rule_e9(ck, prog):
                     "the unit is then accounted as successful (no result = FALSE, trailing-data / -200 accounting wrong)")
 
 
+def rule_e12(ck, prog):
+    """Readers that take no suffix answer a number WITH a suffix with -138 (suffix not allowed), not with the generic -104:
+    decided by evaluating each such reader on a parameter of that token class (sa/interp.py: SCPI_Parameter is replaced
+    by a stub that delivers a token of the class, error pushes are logged)."""
+    from sa import interp as I
+    ec = prog.enumconst
+    cls = ec.get("SCPI_TOKEN_DECIMAL_NUMERIC_PROGRAM_DATA_WITH_SUFFIX")
+    s138 = ec.get("SCPI_ERROR_SUFFIX_NOT_ALLOWED", -138)
+    readers = [("SCPI_ParamBool", 3), ("SCPI_ParamInt32", 3), ("SCPI_ParamUInt32", 3), ("SCPI_ParamInt64", 3), ("SCPI_ParamUInt64", 3),
+               ("SCPI_ParamFloat", 3), ("SCPI_ParamDouble", 3)]
+    n = 0
+    for name, nargs in readers:
+        f = prog.fn(name)
+        if f is None or cls is None:
+            continue
+        st = K.site(f, "suffix-not-allowed", 0)
+
+        def hook(mach, args, cls=cls):
+            obj = args[1].load() if isinstance(args[1], I.Ptr) else None
+            if obj is None and isinstance(args[1], I.Ptr):
+                obj = {}
+                args[1].store(obj)
+            if isinstance(obj, dict):
+                obj.update({"type": cls, "ptr": I.TOP, "len": I.TOP})
+            return 1
+        out = [0]
+        try:
+            outs, m = I.explore(prog, name, [I.TOP, I.Ptr(out, 0), 1], follow=lambda n_: prog.fn(n_) is not None and n_ not in
+                                ("SCPI_ErrorPush", "SCPI_ErrorPushEx", "matchPattern", "strBaseToInt32", "strBaseToUInt32", "strBaseToInt64",
+                                 "strBaseToUInt64", "strToDouble", "strToFloat"),
+                                effects={"SCPI_Parameter": hook, "SCPI_ErrorPush": None, "SCPI_ErrorPushEx": None})
+        except I.Stuck as e:
+            ck.undecided("C05-E12", st, K.loc(f), "%s cannot be evaluated: %s" % (name, e))
+            continue
+        n += 1
+        codes = []
+        for _r, fr in outs:
+            codes.append(tuple(a[1] for nm, a in fr.plog if nm in ("SCPI_ErrorPush", "SCPI_ErrorPushEx") and len(a) > 1))
+        bad = [c for c in codes if c != (s138,)]
+        rets = {_r for _r, fr in outs}
+        if bad or rets - {0}:
+            ck.violated("C05-E12", st, K.loc(f), "a decimal number with a suffix handed to %s queues %s and returns %s; the reader takes no "
+                        "suffix, the specification says exactly one -138 and FALSE" % (name, sorted(set(codes)), sorted(map(str, rets))))
+        else:
+            ck.holds("C05-E12", st, K.loc(f), "number with suffix -> -138, FALSE (%d paths)" % len(outs))
+    if n == 0:
+        ck.anchor_lost("C05-E12", "no typed reader could be evaluated")
+
+
 def rule_e10_e11(ck, prog, S):
     from . import c08
     c08.rule_h8(K.RuleProxy(ck, {"C08-H8": "C05-E10"}), prog, S)
@@ -759,6 +809,7 @@ def run(ck, fb, tier):
         rule_e9(ck, prog)
         K.narrowing_rule(ck, prog, "C05-N", lambda f_: f_.relfile.endswith("parser.c") and f_.name.startswith(("SCPI_Param", "ParamSign", "SCPI_Parameter")))
         rule_e10_e11(ck, prog, S)
+        rule_e12(ck, prog)
         from . import c13
         c13.rule_t7(K.RuleProxy(ck, {"C13-T7": "C05-E5"}), prog)
         rule_e7(ck, prog, S)
